@@ -169,6 +169,14 @@ def listOps : CrdtOps (ListCrdt Nat Nat) (ListOp Nat Nat) :=
   { listRawOps with
     spec := listSpec
     ok := ListSpec.okB
+    -- C16 for List on derivable states: the clock is the per-actor newest known dot (C12.state_eq_spec), so validate_op
+    -- accepts iff the op's dot does not skip a counter of its author w.r.t. the knowledge set
+    vSpec := fun U K op =>
+      if ListSpec.wfB U then
+        match op.dot with
+        | some d => "v=" ++ showValidation ((ListSpec.specClock K).validateOp d)
+        | none => ""
+      else ""
     opDot := fun op => op.dot.map showDot
     elements := some (fun s => s.keys.map (showIdent dotMarker)) }
 
